@@ -298,3 +298,30 @@ def with_comments(prog):
         n += 1
         lines.append(" " * (1 + 2 * d) + "! c%d" % n)
     return "\n".join(lines) + "\n"
+
+
+def feature_tag(cid):
+    """model-level feature of a case used in violation signatures: layer +
+    template id / construct kinds (never the choice vector)."""
+    return "/".join(cid.split("/")[:-1])
+
+
+def run_task(task, check_case, sample_every=50):
+    """generic task runner for properties quantifying over layers A-D"""
+    from mc.runner import Result
+
+    res = Result()
+    last = None
+    n = 0
+    for cid, vec, prog, stats in cases(task):
+        before = res.evals
+        check_case(res, cid, prog, feature_tag(cid))
+        last = stats
+        if n % sample_every == 0:
+            res.sample({"case": cid, "source": G.render(prog)})
+        n += 1
+    if last:
+        res.transitions += last.get("decisions", 0)
+    res.counters["layer_%s_cases" % task[0]] += res.evals
+    res.counters["layer_%s_programs" % task[0]] += n
+    return res
